@@ -15,7 +15,7 @@ def clean():
 
 def run_check(cid):
     t = time.time()
-    r = sh(f"cd /verif && sim/check.sh {cid} quick")
+    r = sh(f"cd /verif && sim/check.sh {cid} " + os.environ.get("SENS_TIER", "quick"))
     lines = [l for l in r.stdout.splitlines() if l.startswith("violation ")]
     return r.returncode, lines, time.time() - t
 
